@@ -490,7 +490,44 @@ pub fn history<W: Whole>(rep: &mut Rep, k: [u8; 40], hseed: u64, max_ops: usize,
             }
             3 => {
                 let i = rng.below(replicas.len() as u64) as usize;
-                let c = replicas[i].clone();
+                let c = if rng.chance(1, 2) {
+                    replicas[i].clone()
+                } else {
+                    // the copy is made in place over an object that served another connection (Clone::clone_from, as
+                    // Vec::clone_from, Option::clone_from and object pools do)
+                    let k2: [u8; 40] = rng.arr();
+                    let src = &replicas[i];
+                    let made = guard(|| {
+                        let (f, _, _) = W::make(k2);
+                        let mut junk = [0x21u8; 13];
+                        match src {
+                            Rep1::Whole(w) => {
+                                let mut f = f;
+                                f.enc(&mut junk);
+                                f.dec(&mut junk);
+                                f.clone_from(w);
+                                Rep1::Whole(f)
+                            }
+                            Rep1::Halves(e, d) => {
+                                let (mut e2, mut d2) = f.split();
+                                e2.enc(&mut junk);
+                                d2.dec(&mut junk);
+                                e2.clone_from(e);
+                                d2.clone_from(d);
+                                Rep1::Halves(e2, d2)
+                            }
+                            Rep1::Dead => Rep1::Dead,
+                        }
+                    });
+                    rep.count("clones_made_in_place_by_clone_from", 1);
+                    match made {
+                        Ok(x) => x,
+                        Err(e) => {
+                            rep.violation(&format!("c12:{}:panic:clone_from", W::NAME), e, replay);
+                            return;
+                        }
+                    }
+                };
                 if replicas.len() < 3 {
                     replicas.push(c);
                 } else {
